@@ -35,6 +35,8 @@ def run(chk):
     bcstsize.run(chk)
     from lib import jecxzrule
     jecxzrule.run(chk)
+    from lib import physidmask
+    physidmask.run(chk)
     return chk.finish(
         level="other",
         explanation=("(a) the generated signature/name/RW tables regenerate byte-identically from db/; (b) for every instruction id of both "
